@@ -4,7 +4,7 @@ CONSTANTS
   CIDS = {"c1"}
   VALS = {"A", "B"}
   VOrder <- MCVOrder
-  MaxDeltas = 3
+  MaxDeltas = 4
   MaxOps = 4
   WithBatch = FALSE
 VIEW View
